@@ -163,6 +163,7 @@ def check(an: Analysis) -> None:
                 out.add("future")
         return out
 
+    timer_disarmed_first = [False]
     # ------------------------------------------------------------------ C16.2 completion callback always resolves the future
     oc = closures.get("completion")
     ob = an.ob(
@@ -196,6 +197,22 @@ def check(an: Analysis) -> None:
                     "the wrapped task can end in a way (BaseException / cancelled) for which the result future is never resolved: the caller waits forever",
                     CFG.show_path(w),
                 )
+        # an exception of the function that is not a cancellation (any class: BaseException itself stands for the custom ones) is
+        # forwarded as an exception - on the route it takes from task.result() no `cancel()` of the result future is reached
+        res_calls = [n for n in gc.nodes if n.kind == "call" and isinstance(n.ast.func, ast.Attribute) and n.ast.func.attr == "result" and "task" in role_of(oc, n.ast.func.value)]  # type: ignore[union-attr]
+        cancels = [n for n in resolvers if n.ast.func.attr == "cancel"]  # type: ignore[union-attr]
+
+        def task_not_cancelled(a, b, lab):
+            if a.kind == "test" and isinstance(a.ast, ast.Call) and isinstance(a.ast.func, ast.Attribute) and a.ast.func.attr == "cancelled" and "task" in role_of(oc, a.ast.func.value):
+                return lab == "T"
+            return False
+
+        for rc in res_calls:
+            route = gc.exc_route("KeyboardInterrupt")  # stands for every BaseException that is neither an Exception nor a cancellation
+            starts = [t for t, lab in rc.succ if lab == "exc" and not route(rc, t, lab)]
+            w = gc.search(starts, lambda n: n in cancels, skip_edge=lambda a, b, lab: route(a, b, lab) or task_not_cancelled(a, b, lab) or done_true_edge(a, b, lab), include_start=True) if starts and cancels else None
+            if w is not None:
+                ob.fail(oc, w[-1].ast, "an exception of the function that is not an Exception subclass (a custom BaseException, KeyboardInterrupt ...) is turned into a cancellation of the result future: the caller does not get the function's own exception", CFG.show_path([rc] + w))
         # forwarded values
         for n in resolvers:
             c = n.ast
@@ -227,6 +244,10 @@ def check(an: Analysis) -> None:
             w = gc.must_pass(lambda n: n in tc, raising=strict, skip_edge=already_cancelled)
             if w is not None:
                 ob3.fail(oc, tc[0].ast, "a path through the completion callback leaves the timer armed", CFG.show_path(w))
+            # ... and does so before it resolves the result future: then a timer callback that still runs can only find the
+            # future done through the caller's cancellation
+            first_res = gc.search([gc.entry], lambda n: n in resolvers, skip_node=lambda n: n in tc) if resolvers else None
+            timer_disarmed_first[0] = w is None and first_res is None
 
     # ------------------------------------------------------------------ C16.4 result callback cancels the task
     orr = closures.get("result")
@@ -271,6 +292,10 @@ def check(an: Analysis) -> None:
                 def e(x: ast.AST):
                     if isinstance(x, ast.Call) and isinstance(x.func, ast.Attribute) and x.func.attr == "done" and "future" in role_of(ot, x.func.value):
                         return done
+                    if isinstance(x, ast.Call) and isinstance(x.func, ast.Attribute) and x.func.attr == "cancelled" and "future" in role_of(ot, x.func.value):
+                        # a pending future is not cancelled; a future found done *by the timer callback* was cancelled by the caller
+                        # when the completion callback disarms the timer before it resolves the future (C16.3, checked above)
+                        return False if not done else (True if timer_disarmed_first[0] else NOVALUE)
                     return NOVALUE
 
                 return e
